@@ -47,7 +47,7 @@ def mk(wb, k, addr, value=None):
     t = wb['titles'][si]
     return {'a1': lambda: wbk.Cell(t, L(c), str(r), value), 'num': lambda: wbk.Cell(si, c - 1, r - 1, value),
             'idx-a1': lambda: wbk.Cell(si, L(c), str(r), value), 'title-num': lambda: wbk.Cell(t, c - 1, r - 1, value),
-            'mixed': lambda: wbk.Cell(t, c - 1, str(r), value)}[addr]()
+            'mixed': lambda: wbk.Cell(t, c - 1, str(r), value), 'mixed2': lambda: wbk.Cell(si, L(c), r - 1, value)}[addr]()
 
 
 def same(a, b):
@@ -248,7 +248,7 @@ def replay(history, counter=None):
                 cell = None
                 if reuse is not None and reusable:
                     cand = reusable[reuse % len(reusable)]
-                    if cand.has_handled_identifiers() and isinstance(cand.title, int):
+                    if cand.has_handled_identifiers() and isinstance(cand.title, int) and isinstance(cand.column, int) and isinstance(cand.row, int):
                         # read - modify - write with the very object a query returned
                         k = f'{cand.title}:{cand.column + 1}:{cand.row + 1}'
                         cand.value = wbk.dec(v)
@@ -344,7 +344,7 @@ def run_case(history):
 def build_machine(rec):
     from hypothesis import strategies as st
     from hypothesis.stateful import RuleBasedStateMachine, rule, initialize, precondition
-    addr = st.sampled_from(['a1', 'num', 'idx-a1', 'title-num', 'mixed'])
+    addr = st.sampled_from(['a1', 'num', 'idx-a1', 'title-num', 'mixed', 'mixed2'])
     value = st.one_of(st.integers(-9, 30), st.sampled_from([2.5, 'txt', True, 0, 1, False, 1.0, 1, 0, True]))
 
     class M(RuleBasedStateMachine):
@@ -362,6 +362,9 @@ def build_machine(rec):
                 for _ in range(data.draw(st.integers(2, 7))):
                     c, r = data.draw(st.integers(1, 3)), data.draw(st.integers(1, 3))
                     cells[f'{si}:{c}:{r}'] = data.draw(st.one_of(st.integers(1, 9), st.integers(1, 9), st.sampled_from([0.5, 'w', True, 0, False, 0.0])))
+            if data.draw(st.integers(0, 3)) == 0:
+                # a worksheet without any cell (used range 0 x 0): every query on it is defined - blank cells, an empty grid
+                titles = titles + ['Empty']
             homes = []
             for i in range(data.draw(st.integers(2, 8))):
                 si = data.draw(st.integers(0, n - 1))
@@ -410,7 +413,7 @@ def build_machine(rec):
             self.h['steps'].append({'op': 'get_cells', 'ks': ks})
 
         @precondition(lambda self: self.h is not None)
-        @rule(si=st.integers(0, 2), by=st.sampled_from(['index', 'title']))
+        @rule(si=st.integers(0, 3), by=st.sampled_from(['index', 'title']))
         def get_sheet(self, si, by):
             self.h['steps'].append({'op': 'get_sheet', 'si': si, 'by': by})
 
